@@ -36,6 +36,11 @@ func initNets() {
 		// zero is a value like any other: a public version of four zero bytes, a private version of four zero bytes, WIF byte 0
 		mk("zero-pub", 0x21, 0x00, [4]byte{0x0b, 0x0c, 0x0d, 0x0e}, [4]byte{0, 0, 0, 0}),
 		mk("zero-priv", 0x22, 0xff, [4]byte{0, 0, 0, 0}, [4]byte{0x0c, 0x0d, 0x0e, 0x0f}),
+		// a second parameter set with customA's PRIVATE version bytes and its own public ones.  Registration below runs from
+		// the end of this table to its beginning, so customA is registered after it and the registry maps 02fac398 to customA's
+		// public version (the model looks the table up front to back).  Moving a key to this network with SetNet must not
+		// change what Neuter does to other keys.
+		mk("customA-twin", 0x23, 0x9d, [4]byte{0x02, 0xfa, 0xc3, 0x98}, [4]byte{0x02, 0xfa, 0xd0, 0x01}),
 	}
 	// a first lookup and a first Neuter happen BEFORE the custom networks are registered: registration must work at any
 	// time, not only before the registry is first consulted
@@ -43,8 +48,8 @@ func initNets() {
 	if m0, err := bip32.NewMaster(make([]byte, 32), &chaincfg.MainNet); err == nil {
 		_, _ = m0.Neuter()
 	}
-	for _, n := range nets[2:] {
-		_ = chaincfg.Register(n.params)
+	for i := len(nets) - 1; i >= 2; i-- {
+		_ = chaincfg.Register(nets[i].params)
 	}
 }
 
